@@ -197,8 +197,7 @@ func genC16Rec(t *rapid.T, idx int) C16Rec {
 		m := pick(t, "mask", c16Masks)
 		set("requested_mask", m)
 		set("denied_mask", m)
-		set("fsuid", pick(t, "fsuid", []string{"1000", "0", "1001"}))
-		set("ouid", pick(t, "ouid", []string{"1000", "0", "1001"}))
+		setUIDs(t, set)
 	case "exec":
 		name, _ := genName(t)
 		set("operation", "exec")
@@ -209,8 +208,7 @@ func genC16Rec(t *rapid.T, idx int) C16Rec {
 		set("comm", comm)
 		set("requested_mask", "x")
 		set("denied_mask", "x")
-		set("fsuid", pick(t, "fsuid", []string{"1000", "0"}))
-		set("ouid", pick(t, "ouid", []string{"1000", "0"}))
+		setUIDs(t, set)
 		if chance(t, "target", 3) {
 			set("target", pick(t, "targetv", []string{"foo//child", "bar"}))
 		}
@@ -225,8 +223,7 @@ func genC16Rec(t *rapid.T, idx int) C16Rec {
 		set("comm", comm)
 		set("requested_mask", "l")
 		set("denied_mask", "l")
-		set("fsuid", pick(t, "fsuid", []string{"1000", "0"}))
-		set("ouid", pick(t, "ouid", []string{"1000", "0"}))
+		setUIDs(t, set)
 		set("target", tgt)
 	case "cap":
 		set("operation", "capable")
@@ -692,6 +689,20 @@ func c16Matches(key string, r C16Rec) bool {
 		return r.Class == "file" && name != strings.ToLower(name) && strings.ContainsAny(name, "ABCDEFGHIJKLMNOPQRSTUVWXYZ")
 	}
 	return false
+}
+
+// c16UIDs holds user ids that are decimal prefixes / extensions of each other, so that a textual
+// comparison of fsuid and ouid looser than equality is visible.
+var c16UIDs = []string{"1000", "0", "1001", "100", "10", "1", "10000", "65534", "104"}
+
+func setUIDs(t *rapid.T, set func(k, v string)) {
+	o := pick(t, "ouid", c16UIDs)
+	fs := o
+	if !chance(t, "sameuid", 2) {
+		fs = pick(t, "fsuid", c16UIDs)
+	}
+	set("fsuid", fs)
+	set("ouid", o)
 }
 
 func TestC16_Cover(t *testing.T) {
